@@ -3810,3 +3810,52 @@ func checkMountLeafSizeAfterDescriptor(c *Ctx, rule string) {
 		"the cafs reader of a streamed mount is built after the descriptor was fetched",
 		"NewReadOnlyFS builds its cafs reader before (or without) fetching the bundle descriptor: the leaf size is the one the caller's Bundle value holds (the default), so every read of a bundle recorded with another leaf size fails its root-key check")
 }
+
+// checkLabelVersionSwitch (C08): a label is resolved to its current value unless a version was asked for: GetVersion(path,
+// version) is called exactly where the label's version is set, Get(path) where it is not; both on the label's own path.
+func checkLabelVersionSwitch(c *Ctx, rule string) {
+	p := c.P
+	f := p.Func("pkg/core.Label.DownloadDescriptor")
+	info := f.Info()
+	ok := false
+	why := "no `if label.version != \"\" { GetVersion } else { Get }` found"
+	ast.Inspect(f.Decl.Body, func(nd ast.Node) bool {
+		ifs, isIf := nd.(*ast.IfStmt)
+		if !isIf || ifs.Else == nil {
+			return true
+		}
+		var gv, g *ast.CallExpr
+		ast.Inspect(ifs.Body, func(m ast.Node) bool {
+			if call, isC := m.(*ast.CallExpr); isC && calleeID(info, call) == "pkg/storage.VersionedStore.GetVersion" {
+				gv = call
+			}
+			return true
+		})
+		ast.Inspect(ifs.Else, func(m ast.Node) bool {
+			if call, isC := m.(*ast.CallExpr); isC && calleeID(info, call) == "pkg/storage.Store.Get" {
+				g = call
+			}
+			return true
+		})
+		if gv == nil && g == nil {
+			return true
+		}
+		cond := describeExprAt(f, ifs.Cond)
+		switch {
+		case cond != "(recv.version!=const:\"\")":
+			why = "the version switch tests `" + exprString(ifs.Cond) + "`"
+		case gv == nil || g == nil:
+			why = "GetVersion is not on the version branch or Get not on the other"
+		case len(gv.Args) != 3 || !strings.Contains(describeExprAt(f, gv.Args[1]), "pkg/model.GetArchivePathToLabel(") || describeExprAt(f, gv.Args[2]) != "recv.version":
+			why = "GetVersion is called with (" + exprString(gv.Args[1]) + ", " + exprString(gv.Args[2]) + ")"
+		case len(g.Args) != 2 || !strings.Contains(describeExprAt(f, g.Args[1]), "pkg/model.GetArchivePathToLabel("):
+			why = "Get is not on the label's path"
+		default:
+			ok = true
+		}
+		return true
+	})
+	c.check(ok, rule, f.ID, p.Pos(f.Decl.Pos()),
+		"GetVersion(path, version) iff a version is set, Get(path) otherwise",
+		"Label.DownloadDescriptor: "+why+": a plain resolution no longer reads the label's current value (or a versioned one reads another object)")
+}
